@@ -121,6 +121,10 @@ impl Property for C10 {
                 Op::Bob { items: vec![ItemSpec::Abort { reason: 1 }], truncated: false, reject: None, fail: None },
                 Op::Bob { items: vec![], truncated: false, reject: None, fail: None },
                 Op::Bob { items: vec![], truncated: true, reject: None, fail: None },
+                Op::Bob { items: vec![ItemSpec::Init], truncated: true, reject: None, fail: None },
+                Op::Bob { items: vec![ItemSpec::Init, ItemSpec::SyncFingerprint], truncated: true, reject: None, fail: None },
+                Op::Alice { items: vec![], truncated: true, fail: None },
+                Op::Alice { items: vec![ItemSpec::SyncFingerprint, ItemSpec::SyncFingerprint], truncated: true, fail: None },
                 Op::Alice { items: vec![ItemSpec::Init], truncated: false, fail: None },
                 Op::Alice { items: vec![ItemSpec::Abort { reason: 1 }], truncated: false, fail: None },
                 Op::Alice { items: vec![], truncated: false, fail: None },
@@ -377,7 +381,10 @@ impl Property for C10 {
                             }
                         }
                         if truncated {
-                            let _ = their_w.write_all(&[0, 0, 0, 9, 1]).await;
+                            // the stream ends inside a frame: inside the 4-byte length prefix (1, 2
+                            // or 3 bytes) or inside the body, chosen by the shape of the case
+                            let k = [1usize, 2, 3, 5, 7][(items.len() + 2 * reject.is_some() as usize + is_bob as usize + fail.map(|f| f.0).unwrap_or(0)) % 5];
+                            let _ = their_w.write_all(&[0u8, 0, 0, 9, 1, 2, 3][..k]).await;
                         }
                         let _ = their_w.shutdown().await;
                         drop(their_w);
